@@ -4,7 +4,7 @@
 # must still exit 0.  /repo is restored afterwards.
 cd /verif
 [ -z "$(git -C /repo status --porcelain -- src)" ] || { echo "/repo/src is not clean; refusing"; exit 2; }
-for p in seeded/harmless/*.diff; do git -C /repo apply --3way $p 2>/dev/null || git -C /repo apply $p || { echo "$p does not apply -- skipped"; }; done
+for p in seeded/harmless/*.diff; do git -C /repo apply --3way /verif/$p 2>/dev/null || git -C /repo apply /verif/$p || { echo "$p does not apply -- skipped"; }; done
 git -C /repo reset -q
 tools/run_all.sh ${1:-quick} 2>&1 | grep -E "^\[C|VIOLATION|UNDECIDED|CRASH|exit="
 rc=0
